@@ -98,8 +98,8 @@ def gen(rng, neutral):
     G.mutate(rng, spec, table, k=rng.choice([1, 2]))
     n = len(table["columns"][0]["values"]) if table["columns"] else 0
     h = rng.choice([None, 0, 1, 2, n]) if n else None
-    t = rng.choice([None, None, 1, 2])
-    k = rng.choice([None, None, 1, 2, n])
+    t = rng.choice([None, None, 0, 1, 2])
+    k = rng.choice([None, None, 0, 1, 2, n])
     r = rng.choice([0, 1, 7, 42])
     for name in ("h", "t", "k"):
         pass
